@@ -49,6 +49,9 @@ func Forall(lo, hi int, f func(i int) bool) bool {
 	return true
 }
 
+// ForallStr is the universal quantifier over all strings (only meaningful to the verifier).
+func ForallStr(f func(s string) bool) bool { return true }
+
 // Exists is the bounded existential quantifier lo <= i < hi.
 func Exists(lo, hi int, f func(i int) bool) bool {
 	for i := lo; i < hi; i++ {
